@@ -2,7 +2,7 @@
 (R-LINEAR.task), no refused task ignored (R-SINK), no completion-ordered sequence (R-SEQ),
 no swallowed stage/item error (R-ERRDEAD)."""
 from vlib import fixtures
-from rules import errdead, queue, linear, order
+from rules import errdead, queue, linear, order, sync
 from vlib.mir import Fn
 from vlib import witness
 
@@ -14,7 +14,7 @@ EXEMPT = {
 
 def run(ctx):
     fx = ctx.facts("default")
-    fixtures.run(ctx, ['errdead', 'tasks'])
+    fixtures.run(ctx, ['errdead', 'tasks', 'inflight', 'lockorder'])
     witness.run_dir(ctx, "W18", "C18")
     ctx.floor("W18.witnesses", 2)
     queue.run(ctx, fx, "concurrency::work_stealing::WorkStealingQueue", "src/concurrency/work_stealing.rs",
@@ -42,6 +42,18 @@ def run(ctx):
                                    "src/concurrency/fiber_aio.rs", "src/concurrency/fiber_yield.rs",
                                    "src/concurrency/async_blob_store.rs"])
     ctx.floor("R-SEQ.sequence_apis", 20)
+    # in-flight counters come back down on every path; the two queue locks are always taken in one order
+    ninf = 0
+    for f in ("src/concurrency/work_stealing.rs", "src/concurrency/pipeline.rs", "src/concurrency/fiber_pool.rs"):
+        for fid in fx.fn_ids(f):
+            if "::tests::" in fid:
+                continue
+            for k in range(fx.count(fid)):
+                ninf += sync.inc_dec_pairing(ctx, Fn(fx.raw(fid, k)))
+    ctx.instance("R-INFLIGHT.counters", ninf)
+    ctx.floor("R-INFLIGHT.counters", 3)
+    sync.lock_order(ctx, fx, "src/concurrency/work_stealing.rs")
+    ctx.floor("R-LOCKORDER.acquisitions", 6)
     errdead.run(ctx, fx, ["src/concurrency/pipeline.rs", "src/concurrency/fiber_pool.rs"], exempt=EXEMPT)
     ctx.floor("R-ERRDEAD.sites", 3)
     return dict(
@@ -59,6 +71,6 @@ def run(ctx):
                     "task by value and returning Result => result local must be read. R-SEQ: bodies returning "
                     "[Result<]Vec<_> and their nested closures/coroutines call no buffer_unordered/FuturesUnordered/"
                     "for_each_concurrent/select_all/join_next.",
-        trusted_base=["rustc nightly (type checker for witnesses, MIR)", "zfacts", "rules/queue.py", "rules/errdead.py", "rules/linear.py", "rules/order.py"],
+        trusted_base=["rustc nightly (type checker for witnesses, MIR)", "zfacts", "rules/queue.py", "rules/errdead.py", "rules/linear.py", "rules/order.py", "rules/sync.py"],
         rule_text="obligation = (queue field, owner-path drain) | (Err arm or dead Result local) | witness; all are non-trivial",
     )
